@@ -179,6 +179,8 @@ def main():
         mod.run(chk, ctx)
         if f.aliases:
             chk.analysed["parameter_aliases"] = ["%s: `%s` read as `%s` (renamed parameter, same position and type)" % x for x in f.aliases]
+        if f.field_aliases:
+            chk.analysed["field_aliases"] = ["%s read as `%s` (renamed field: same position and type)" % x for x in f.field_aliases]
         if f.function_aliases:
             chk.analysed["function_aliases"] = ["%s read as %s (renamed: same module/impl, same signature, unique)" % x for x in f.function_aliases]
         if f.closure_aliases:
